@@ -293,7 +293,7 @@ package keeper
 // UpdateServiceBinding: only the binding's owner; the added deposit is recorded on the binding and moved from the owner
 // to the deposit escrow, whether or not the binding is currently available.
 //@ func Keeper.UpdateServiceBinding(ctx, serviceName, provider, deposit, pricing, qos, options, owner)
-//@   property C07
+//@   property C07, C16
 //@   returns err
 //@   requires has(prm) && types.paramsOK(get(prm)) && pricingsWF
 //@   requires owner != DEP
@@ -311,6 +311,9 @@ package keeper
 //@   ensures others:    forall s:Str :: forall p:Bytes :: (s != serviceName || p != provider) ==> has(bindings, s, p) == old(has(bindings, s, p)) && BIND(s, p) == old(BIND(s, p))
 //@   lemma @return depUpd(old(bindings), serviceName, provider, BIND(serviceName, provider)) if err == nil
 //@   ensures deposit_inv: err == nil && old(depositInv) ==> depositInv
+// whatever the deposit holds in relation to the minimum in force (the authority may change base denomination and minimum
+// deposit under existing bindings), the comparison rejects, it never aborts (C16)
+//@   nopanic C16
 //@ end
 
 // ---------------------------------------------------------------------------------------------
